@@ -96,7 +96,62 @@ def run_shard(shard):
             st.sample({"lhs": ltext, "mergeat": "/a/*", "rhs": "{y: 2}"})
     if lo == 0:
         rules_family(st)
+        empty_left_family(st)
     return st
+
+
+def _plain(node):
+    if corpus.is_map(node):
+        return {str(k): _plain(v) for k, v in node.items()}
+    if corpus.is_list(node):
+        return [_plain(v) for v in node]
+    val = corpus.plain_scalar(node)
+    return val[1] if isinstance(val, tuple) and len(val) == 2 else val
+
+
+def empty_left_family(st):
+    """An empty left document (no document at all, {} or []) and a target
+    path that has to be created: the path is built to hold the right-hand
+    document, whatever its root type."""
+    rights = [("x: 1\n", {"x": 1}), ("[1, 2]\n", [1, 2]), ("s\n", "s"),
+              ("5\n", 5), ("x: {y: [1]}\n", {"x": {"y": [1]}})]
+    cases = []
+    for ltext in ("", "{}\n"):
+        for at, build in (("/a", lambda r: {"a": r}),
+                          ("/a/b", lambda r: {"a": {"b": r}}),
+                          ("/a[0]", lambda r: {"a": [r]}),
+                          ("/a/b[0]/c", lambda r: {"a": {"b": [{"c": r}]}}),
+                          ("a.b.c", lambda r: {"a": {"b": {"c": r}}})):
+            cases.append((ltext, at, build))
+    for ltext in ("", "[]\n"):
+        for at, build in (("/[0]", lambda r: [r]),
+                          ("/[0]/a", lambda r: [{"a": r}]),
+                          ("/[0][0]", lambda r: [[r]])):
+            cases.append((ltext, at, build))
+    for ltext, at, build in cases:
+        for rtext, rplain in rights:
+            for pol in POLS[:2]:
+                st.evaluations += 1
+                st.transitions += 1
+                st.validated += 1
+                ldoc = corpus.load(ltext) if ltext else None
+                rdoc = corpus.load(rtext)
+                case = {"lhs": ltext, "rhs": rtext, "mergeat": at,
+                        "segs": [], "policies": pol, "empty_left": True}
+                cfg = mergerun.make_config(pol, mergeat=at)
+                res, data = mergerun.merge(ldoc, rdoc, cfg)
+                st.outcomes["empty-left:" + res] += 1
+                want = build(rplain)
+                if res != "ok":
+                    st.fail("empty-left|%s" % res, case, repr(want),
+                            str(data))
+                    continue
+                st.states += 1
+                st.sig("empty-left", ltext, at, type(rplain).__name__)
+                if _plain(data) != want:
+                    st.fail("empty-left|wrong-result|%s" % (
+                        "no-document" if not ltext else "empty-container"),
+                            case, repr(want), repr(_plain(data)))
 
 
 def rules_family(st):
@@ -298,6 +353,14 @@ def unorder(t):
 def replay(case):
     from vkit.props import C01
     st = core.Stats(None)
+    if case.get("empty_left"):
+        empty_left_family(st)
+        for lst in st.fails.values():
+            for f in lst:
+                if all(f["case"][k] == case[k] for k in
+                       ("lhs", "rhs", "mergeat", "policies")):
+                    return f
+        return None
     rdoc = corpus.load(case["rhs"])
     if case.get("rules"):
         (rulepath, rule), = case["rules"].items()
